@@ -523,3 +523,11 @@ PROPS['C07']['rule'] = PROPS['C07']['rule'] + (' || indep suite: for the constru
 # C13 also speaks about UnmarshalPacked (one value per entry, nothing skipped): packed histories contain mutated streams
 PROPS['C13']['suites'] = PROPS['C13']['suites'] + [_PACKED_SUITES[0]]
 PROPS['C13']['rule'] = PROPS['C13']['rule'] + ' || ' + _PACKED_RULE
+
+# C12: "the id the client waits for is the id the server sees" also for RawMessage, whose Chunk() is GetChunk
+PROPS['C12']['suites'] = PROPS['C12']['suites'] + [_CHUNK_SUITE]
+PROPS['C12']['rule'] = PROPS['C12']['rule'] + ' || chunk suite (RawMessage.Chunk / GetChunk against the option map the specification parser finds)'
+
+# C10 names EventTime decoding among the entry points: the et suite's decode half (payloads of every length 0..19)
+PROPS['C10']['suites'] = PROPS['C10']['suites'] + [PROPS['C19']['suites'][0]]
+PROPS['C10']['rule'] = PROPS['C10']['rule'] + ' || et suite (EventTime.UnmarshalBinary on payloads of 0..19 bytes)'
